@@ -60,6 +60,52 @@ def worker(kp, job):
     return {'records': records}
 
 
+def session_worker(kp, job):
+    """ONE ExportOptions object (and one Exporter) serving several documents of different widths in a row - a batch loop:
+    each export must be what fresh options give for that document, and the options object keeps its fields"""
+    seed, idx = job
+    rng = random.Random(seed * 49979687 + idx)
+    widths = [rng.randint(1, 2), rng.randint(3, 4), rng.randint(2, 4)]
+    if idx % 3 == 2:
+        rng.shuffle(widths)
+    gs = []
+    for w in widths:
+        for _ in range(6):
+            g = docs.gen_doc(rng, max_spines=w, measures=rng.randint(1, 2))
+            if len(g.headers) == w:
+                break
+        gs.append(g)
+    records = []
+    for o in ({'spine_types': ['**kern']}, {}, {'spine_types': ['**kern', '**text']}, {'spine_ids': [0]}):
+        kw = dict(o)
+        options = kp.ExportOptions(**kw)
+        before = (None if options.spine_ids is None else list(options.spine_ids), None if options.spine_types is None else list(options.spine_types))
+        exporter = kp.Exporter()
+        viol = []
+        for k, g in enumerate(gs):
+            text = g.text
+            try:
+                doc, errs = kp.loads(text)
+            except Exception:
+                break
+            bad = docs.bad_cells(kp, text)
+            r = optprops.evaluate(kp, g, doc, bad, text, o, 'session', clause='projection')
+            records.append(r)
+            try:
+                got = 'ok:' + exporter.export_string(doc, options)
+            except Exception as e:
+                got = 'err:' + type(e).__name__
+            if got != r['impl'] and not viol:
+                viol.append(('projection', f'one ExportOptions({optprops.fmt(o)}) reused: document {k + 1} of a batch (widths {[len(x.headers) for x in gs]}) '
+                                           f'exports something else than with fresh options', {'text': text, 'options': o, 'earlier': [x.text for x in gs[:k]]}))
+        after = (None if options.spine_ids is None else list(options.spine_ids), None if options.spine_types is None else list(options.spine_types))
+        if after != before and not viol:
+            viol.append(('projection', f'exporting changed the caller\'s ExportOptions: spine_ids / spine_types {before} -> {after}',
+                         {'text': gs[0].text, 'options': o}))
+        records.append(engine.rec('session', viol=viol, kind='session', key=('session', idx, str(o))))
+    return {'records': records}
+
+
 def run(chk):
     b = core.standard_build(chk)
     model = core.Model() if b.modelrun_ok else None
@@ -67,8 +113,9 @@ def run(chk):
     n = core.budget(chk, full, 60, 400)
     chk.rule = ('generated documents (1-4 spines, nested splits and joins, unknown spine types every 4th) x EVERY subset of the '
                 'spine ids and EVERY subset of the spine types present, out-of-range ids, unknown types, 6 combined selections, '
-                'and the spine_types query on 10 header lists; non-trivial = distinct (text, options)')
+                'and the spine_types query on 10 header lists; batches of three documents of different widths served by ONE ExportOptions object; non-trivial = distinct (text, options)')
     results = engine.pmap(worker, [(chk.seed, i) for i in range(n)])
+    results += engine.pmap(session_worker, [(chk.seed, i) for i in range(core.budget(chk, full, 16, 100))])
     engine.settle(chk, results, model)
     chk.disagreements_checked = len(chk.broken)
 
